@@ -28,6 +28,7 @@ const (
 	oCI
 	oSize
 	oIter
+	oRemoved2 // Removed(a, b): one call, two keys
 )
 
 type opSpec struct {
@@ -36,8 +37,8 @@ type opSpec struct {
 }
 
 func (o opSpec) String() string {
-	n := []string{"Get", "Updated", "Removed", "UpdatedWith(inc)", "UpdatedWith(del)", "ComputeIfAbsent", "ComputeIf(<5)", "Size", "Iterator"}[o.kind]
-	if o.kind == oSize || o.kind == oIter {
+	n := []string{"Get", "Updated", "Removed", "UpdatedWith(inc)", "UpdatedWith(del)", "ComputeIfAbsent", "ComputeIf(<5)", "Size", "Iterator", "Removed(a,b)"}[o.kind]
+	if o.kind == oSize || o.kind == oIter || o.kind == oRemoved2 {
 		return n
 	}
 	return n + "(" + o.key + ")"
@@ -45,7 +46,7 @@ func (o opSpec) String() string {
 
 var alphabet = []opSpec{
 	{oGet, "a"}, {oUpdated, "a"}, {oRemoved, "a"}, {oInc, "a"}, {oDel, "a"}, {oCIA, "a"}, {oCI, "a"},
-	{oUpdated, "b"}, {oRemoved, "b"}, {oCIA, "b"}, {oSize, ""}, {oIter, ""},
+	{oUpdated, "b"}, {oRemoved, "b"}, {oCIA, "b"}, {oSize, ""}, {oIter, ""}, {oRemoved2, ""},
 }
 
 // event is one completed (or pending) operation of the history.
@@ -114,6 +115,10 @@ func (s spec) apply(e *event) string {
 		return fmt.Sprint(len(s))
 	case oIter:
 		return s.dump()
+	case oRemoved2:
+		delete(s, "a")
+		delete(s, "b")
+		return ""
 	}
 	panic("unreachable")
 }
@@ -163,9 +168,13 @@ func scenario(init string, threads [][]opSpec) func(x *mc.X) {
 	return func(x *mc.X) {
 		m := &mutable.CopyOnWriteMap[string, int]{}
 		initSpec := spec{}
-		if init == "a0" {
+		if init == "a0" || init == "ab" {
 			m.Updated("a", 0)
 			initSpec["a"] = 0
+		}
+		if init == "ab" {
+			m.Updated("b", 7)
+			initSpec["b"] = 7
 		}
 		clock := 0
 		var evs []*event
@@ -208,7 +217,7 @@ func scenario(init string, threads [][]opSpec) func(x *mc.X) {
 			var vals []string
 			onlyCIA := true
 			for _, e := range evs {
-				if e.op.key == k && e.op.kind != oCIA && e.op.kind != oGet {
+				if (e.op.key == k && e.op.kind != oCIA && e.op.kind != oGet) || e.op.kind == oRemoved2 {
 					onlyCIA = false
 				}
 			}
@@ -303,6 +312,8 @@ func run(x *mc.X, m *mutable.CopyOnWriteMap[string, int], e *event) string {
 		return fmt.Sprint(m.Size())
 	case oIter:
 		return snapshot(m)
+	case oRemoved2:
+		m.Removed("a", "b")
 	}
 	return ""
 }
@@ -326,7 +337,7 @@ func main() {
 		if !mc.Instrumented {
 			panic("C19 must be built with the overlay (-tags verifrt)")
 		}
-		inits := []string{"nil", "a0"}
+		inits := []string{"nil", "a0", "ab"}
 		add := func(bound int, init string, threads [][]opSpec) {
 			var ns []string
 			for _, t := range threads {
